@@ -89,12 +89,13 @@ def run(ctx):
             ctx.fail('index-type-not-stored', key0, expected=case['indextype'], observed=ob['inumtype'])
         ri = rinfo(ob)
         for lang in ob['all_languages']:
-            for mode in ('rel', 'base', 'abs'):
+            for mode in ('rel', 'base', 'abs', 'both'):
                 key = dict(key0, language=lang, path=mode)
                 code = ob['codes'][lang][mode]
                 ctx.seen(key, nontrivial=code is not None)
                 ctx.count(f'{lang}:{"offered" if code is not None else "withheld"}')
-                pm = dict(rel='PRel', base='(PBase "sub/ra.darr")', abs=f'(PAbs {coqstr(ob["absdir"])})')[mode]
+                pm = dict(rel='PRel', base='(PBase "sub/ra.darr")', abs=f'(PAbs {coqstr(ob["absdir"])})',
+                          both=f'(PAbs {coqstr(ob["absdir"])})')[mode]
                 terms.append(f'chk_rrc {coqstr(lang)} {ri} {pm} {ostr(code)}')
                 keep.append((key, code))
         terms.append(f'chk_rlangs {ri} [' + '; '.join(coqstr(x) for x in ob['languages']) + ']')
